@@ -243,6 +243,7 @@ func (dl *dialLimiter) executeDial(j *dialJob) {
 	if j.cancelled() {
 		return
 	}
+	verifhook.AtArg("swarm.limiter.beforeDialFunc", j.addr)
 
 	dctx, cancel := context.WithTimeout(j.ctx, j.timeout)
 	defer cancel()
